@@ -195,27 +195,29 @@ def join_data(left_data, right_data, join_expr, right_expr=None, is_left_join=Fa
     left_expression = parse_expression(join_expr)
     right_expression = parse_expression(right_expr) if right_expr is not None else left_expression
 
-    # Bucket the right rows by the right expression value
-    right_category_rows = {}
-    for right_row in right_data:
-        category_key = value_json(evaluate_expression(right_expression, eval_options, right_row))
-        if category_key not in right_category_rows:
-            right_category_rows[category_key] = []
-        right_category_rows[category_key].append(right_row)
+    try:
+        # Bucket the right rows by the right expression value
+        right_category_rows = {}
+        for right_row in right_data:
+            category_key = value_json(evaluate_expression(right_expression, eval_options, right_row))
+            if category_key not in right_category_rows:
+                right_category_rows[category_key] = []
+            right_category_rows[category_key].append(right_row)
 
-    # Join the left with the right
-    data = []
-    for left_row in left_data:
-        category_key = value_json(evaluate_expression(left_expression, eval_options, left_row))
-        if category_key in right_category_rows:
-            for right_row in right_category_rows[category_key]:
-                join_row = dict(left_row)
-                for right_name, right_value in right_row.items():
-                    join_row[right_names[right_name]] = right_value
-                data.append(join_row)
-        elif not is_left_join:
-            data.append(dict(left_row))
-    _update_statement_count(options, eval_options)
+        # Join the left with the right
+        data = []
+        for left_row in left_data:
+            category_key = value_json(evaluate_expression(left_expression, eval_options, left_row))
+            if category_key in right_category_rows:
+                for right_row in right_category_rows[category_key]:
+                    join_row = dict(left_row)
+                    for right_name, right_value in right_row.items():
+                        join_row[right_names[right_name]] = right_value
+                    data.append(join_row)
+            elif not is_left_join:
+                data.append(dict(left_row))
+    finally:
+        _update_statement_count(options, eval_options)
 
     return data
 
@@ -259,9 +261,11 @@ def add_calculated_field(data, field_name, expr, variables=None, options=None):
             eval_options['globals'] = variables
 
     # Compute the calculated field for each row
-    for row in data:
-        row[field_name] = evaluate_expression(calc_expr, eval_options, row)
-    _update_statement_count(options, eval_options)
+    try:
+        for row in data:
+            row[field_name] = evaluate_expression(calc_expr, eval_options, row)
+    finally:
+        _update_statement_count(options, eval_options)
 
     return data
 
@@ -298,10 +302,12 @@ def filter_data(data, expr, variables=None, options=None):
             eval_options['globals'] = variables
 
     # Filter the data
-    for row in data:
-        if value_boolean(evaluate_expression(filter_expr, eval_options, row)):
-            result.append(row)
-    _update_statement_count(options, eval_options)
+    try:
+        for row in data:
+            if value_boolean(evaluate_expression(filter_expr, eval_options, row)):
+                result.append(row)
+    finally:
+        _update_statement_count(options, eval_options)
 
     return result
 
